@@ -83,6 +83,16 @@ def run(ctx):
                  sample=dict(start=r.desc, ops=[s["op"][0] + ":" + s["real"] for s in r.steps]), tags=C.history_tags(r))
         C.correspondence(ctx, r)
         C.judge_and_shrink(ctx, r, judge, observe=observe, getall=True)
+    # "dates to the second" between the open object, the disk and a reopened file must not depend on where the process runs:
+    # a share of the histories again with the process in other time zones (the dates of the objects are naive LOCAL datetimes)
+    from sessions.c06 import TZS, local_tz
+    for tz in TZS[1:]:
+        with local_tz(tz):
+            for r in C.explore(ctx, ctx.n(40, 600), 8, ["fresh", "n3", "n14"], p_invalid=0.1, observe=observe, getall=True):
+                r.desc += f" [TZ={tz.split(',')[0]}]"
+                ctx.case((r.desc, str(C.jsonable_hist(r.hist))), nontrivial=C.nontrivial_history(r), tags=C.history_tags(r) + ["tz=" + tz.split(",")[0]])
+                C.correspondence(ctx, r)
+                judge(ctx, r)
 
 
 def replay(path):
